@@ -82,27 +82,133 @@ theorem step_ws_frame {g : Graph} {cfg : Cfg} {c c' : St} {l : Label} (h : step?
       | (cases h; exact hset _ _ (fun hh => hw hh))
       | cases h
 
+/-- A label other than the one-step failure bookkeeping. -/
+def NoFail : Label → Prop
+  | .finFail _ => False
+  | _ => True
+
+/-- Such a step neither reads nor writes `error_count` and `first_node_error`. -/
+theorem step_err_frame {g : Graph} {cfg : Cfg} {c : St} {l : Label} (hl : NoFail l) (e' : Nat) (f' : Option Nat) :
+    step? g cfg { c with errs := e', first := f' } l = (step? g cfg c l).map (fun c' => { c' with errs := e', first := f' }) ∧
+    ∀ c', step? g cfg c l = some c' → c'.errs = c.errs ∧ c'.first = c.first := by
+  cases l <;> simp only [step?, setW, releasePut, releaseRem]
+  case finFail w => exact absurd hl (by simp [NoFail])
+  all_goals
+    constructor
+    · repeat' split
+      all_goals first | rfl | simp
+    · intro c' h
+      repeat' split at h
+      all_goals first | (cases h; exact ⟨rfl, rfl⟩) | cases h
+
 /-! ### the simulation -/
 
-/-- What is known about the holder of `remaining_pred_count_lock`. -/
-def FInv (g : Graph) (s : St2) : Prop :=
-  match s.lock with
-  | none => True
-  | some r =>
-    r.y ∈ r.todo ∧ classify (g.predCount r.y) ≠ Kind.single ∧
-    s.c.ws[r.w]? = some (if r.stage = .done then .releasing r.x (r.todo.erase r.y) else .releasing r.x r.todo) ∧
-    (∀ b, r.stage = .tested b → b = readyCond (s.c.rem r.y))
+/-- `absR` commutes with every step that is not the one-step handling of a multi-parent successor. -/
+theorem step_absR {g : Graph} {cfg : Cfg} {c : St} {l : Label} (hl : Plain g l) (lk : Option Region) :
+    step? g cfg (absR lk c) l = (step? g cfg c l).map (absR lk) := by
+  have key : ∀ y, step? g cfg { c with rem := bump c.rem y } l =
+      (step? g cfg c l).map (fun c' => { c' with rem := bump c'.rem y }) := by
+    intro y
+    rw [(step_rem_frame hl (bump c.rem y)).1]
+    cases hc : step? g cfg c l with
+    | none => rfl
+    | some c' => simp only [Option.map_some]; rw [(step_rem_frame (g := g) (cfg := cfg) hl (fun z => z)).2 c' hc]
+  unfold absR
+  split
+  · next r =>
+    split
+    · simpa using key r.y
+    · simpa using key r.y
+    · simp
+  · simp
 
-theorem abs_fields (s : St2) :
-    (abs s).queue = s.c.queue ∧ (abs s).unfinished = s.c.unfinished ∧ (abs s).stop = s.c.stop ∧
-    (abs s).errs = s.c.errs ∧ (abs s).first = s.c.first ∧ (abs s).ws = s.c.ws ∧ (abs s).coord = s.c.coord ∧
-    (abs s).begun = s.c.begun ∧ (abs s).okd = s.c.okd ∧ (abs s).failed = s.c.failed ∧
-    (abs s).skipped = s.c.skipped ∧ (abs s).retired = s.c.retired ∧ (abs s).rel = s.c.rel ∧ (abs s).enq = s.c.enq ∧
-    (abs s).log = s.c.log := by
-  unfold abs
+/-- `absF` commutes with every step that is not the one-step failure bookkeeping. -/
+theorem step_absF {g : Graph} {cfg : Cfg} {c : St} {l : Label} (hl : NoFail l) (fl : Option FRegion) :
+    step? g cfg (absF fl c) l = (step? g cfg c l).map (absF fl) := by
+  have key : ∀ f', step? g cfg { c with errs := c.errs - 1, first := f' } l =
+      (step? g cfg c l).map (fun c' => { c' with errs := c'.errs - 1, first := f' }) := by
+    intro f'
+    rw [(step_err_frame hl (c.errs - 1) f').1]
+    cases hc : step? g cfg c l with
+    | none => rfl
+    | some c' => simp only [Option.map_some]; rw [((step_err_frame (g := g) (cfg := cfg) hl 0 none).2 c' hc).1]
+  have key2 : step? g cfg { c with errs := c.errs - 1 } l =
+      (step? g cfg c l).map (fun c' => { c' with errs := c'.errs - 1 }) := by
+    have := key c.first
+    cases hc : step? g cfg c l with
+    | none => rw [hc] at this; simpa using this
+    | some c' =>
+      rw [hc] at this
+      have hf := ((step_err_frame (g := g) (cfg := cfg) hl 0 none).2 c' hc).2
+      simp only [Option.map_some] at this ⊢
+      have e1 : ({ c with errs := c.errs - 1 } : St) = { c with errs := c.errs - 1, first := c.first } := rfl
+      rw [e1, this, ← hf]
+  unfold absF
+  split
+  · next r =>
+    split
+    · simpa using key2
+    · simpa using key r.oldFirst
+    · simp
+  · simp
+
+theorem absF_absR_comm (fl : Option FRegion) (lk : Option Region) (c : St) : absF fl (absR lk c) = absR lk (absF fl c) := by
+  unfold absF absR
+  split
+  · split
+    all_goals (split <;> try split) <;> rfl
+  · rfl
+
+/-- What is known about the holders of the two locks. -/
+def FInv (g : Graph) (s : St2) : Prop :=
+  (match s.lock with
+   | none => True
+   | some r =>
+     r.y ∈ r.todo ∧ classify (g.predCount r.y) ≠ Kind.single ∧
+     s.c.ws[r.w]? = some (if r.stage = .done then .releasing r.x (r.todo.erase r.y) else .releasing r.x r.todo) ∧
+     (∀ b, r.stage = .tested b → b = readyCond (s.c.rem r.y))) ∧
+  (match s.flock with
+   | none => True
+   | some r =>
+     s.c.ws[r.w]? = some (if r.stage = .done then .finishing false else .running r.x) ∧
+     (r.stage = .acquired → s.c.first = r.oldFirst) ∧
+     (r.stage = .counted → s.c.first = r.oldFirst ∧ 1 ≤ s.c.errs) ∧
+     (r.stage = .firstSet → s.c.first = (match r.oldFirst with | some f => some f | none => some r.x) ∧ 1 ≤ s.c.errs))
+
+theorem absR_fields (lk : Option Region) (c : St) :
+    (absR lk c).queue = c.queue ∧ (absR lk c).unfinished = c.unfinished ∧ (absR lk c).stop = c.stop ∧
+    (absR lk c).errs = c.errs ∧ (absR lk c).first = c.first ∧ (absR lk c).ws = c.ws ∧ (absR lk c).coord = c.coord ∧
+    (absR lk c).begun = c.begun ∧ (absR lk c).okd = c.okd ∧ (absR lk c).failed = c.failed ∧
+    (absR lk c).skipped = c.skipped ∧ (absR lk c).retired = c.retired ∧ (absR lk c).rel = c.rel ∧
+    (absR lk c).enq = c.enq ∧ (absR lk c).log = c.log := by
+  unfold absR
   split
   · split <;> simp
   · simp
+
+theorem absF_fields (fl : Option FRegion) (c : St) :
+    (absF fl c).queue = c.queue ∧ (absF fl c).unfinished = c.unfinished ∧ (absF fl c).stop = c.stop ∧
+    (absF fl c).rem = c.rem ∧ (absF fl c).ws = c.ws ∧ (absF fl c).coord = c.coord ∧
+    (absF fl c).begun = c.begun ∧ (absF fl c).okd = c.okd ∧ (absF fl c).failed = c.failed ∧
+    (absF fl c).skipped = c.skipped ∧ (absF fl c).retired = c.retired ∧ (absF fl c).rel = c.rel ∧
+    (absF fl c).enq = c.enq ∧ (absF fl c).log = c.log := by
+  unfold absF
+  split
+  · split <;> simp
+  · simp
+
+/-- The abstraction keeps the queue, the workers, the stop flag and the whole event history. -/
+theorem abs_fields (s : St2) :
+    (abs s).queue = s.c.queue ∧ (abs s).unfinished = s.c.unfinished ∧ (abs s).stop = s.c.stop ∧
+    (abs s).ws = s.c.ws ∧ (abs s).coord = s.c.coord ∧
+    (abs s).begun = s.c.begun ∧ (abs s).okd = s.c.okd ∧ (abs s).failed = s.c.failed ∧
+    (abs s).skipped = s.c.skipped ∧ (abs s).retired = s.c.retired ∧ (abs s).rel = s.c.rel ∧ (abs s).enq = s.c.enq ∧
+    (abs s).log = s.c.log := by
+  obtain ⟨a1, a2, a3, a4, a5, a6, a7, a8, a9, a10, a11, a12, a13, a14⟩ := absF_fields s.flock (absR s.lock s.c)
+  obtain ⟨b1, b2, b3, _, _, b6, b7, b8, b9, b10, b11, b12, b13, b14, b15⟩ := absR_fields s.lock s.c
+  unfold abs
+  exact ⟨a1.trans b1, a2.trans b2, a3.trans b3, a5.trans b6, a6.trans b7, a7.trans b8, a8.trans b9, a9.trans b10,
+    a10.trans b11, a11.trans b12, a12.trans b13, a13.trans b14, a14.trans b15⟩
 
 theorem bump_dec {rem : Nat → Nat} {y : Nat} (h : 1 ≤ rem y) :
     bump (fun z => if z = y then rem y - 1 else rem z) y = rem := by
@@ -112,172 +218,342 @@ theorem bump_dec {rem : Nat → Nat} {y : Nat} (h : 1 ≤ rem y) :
   · subst hz; simp; omega
   · simp [hz]
 
-/-- **One fine step is one coarse step or none** (and `FInv` is kept). -/
-theorem sim {g : Graph} (hg : g.WF) {cfg : Cfg} {s s' : St2} {l : Label2}
-    (hr : Reach g cfg (abs s)) (hf : FInv g s) (h : step2? g cfg s l = some s') :
+theorem with_errs_self (a : St) (e : Nat) (h : a.errs = e) : { a with errs := e } = a := by
+  cases a; simp_all
+
+theorem ws_ne {ws : List W} {a b : Nat} {u v : W} (ha : ws[a]? = some u) (hb : ws[b]? = some v) (huv : u ≠ v) : a ≠ b := by
+  intro hab; subst hab; rw [ha] at hb; exact huv (Option.some.inj hb)
+
+theorem absR_with_errs (lk : Option Region) (c : St) (e : Nat) :
+    absR lk { c with errs := e } = { absR lk c with errs := e } := by
+  unfold absR; split
+  · split <;> rfl
+  · rfl
+
+theorem absR_with_first (lk : Option Region) (c : St) (f : Option Nat) :
+    absR lk { c with first := f } = { absR lk c with first := f } := by
+  unfold absR; split
+  · split <;> rfl
+  · rfl
+
+section
+variable {g : Graph} {cfg : Cfg} {s s' : St2}
+
+/-- the steps of the `remaining_pred_count_lock` block -/
+theorem sim_counter (hg : g.WF) {l : Label2} (hr : Reach g cfg (abs s)) (hf : FInv g s)
+    (hl : (∃ w y, l = .acquire w y) ∨ (∃ w, l = .dec w) ∨ (∃ w, l = .test w) ∨ (∃ w, l = .put w) ∨ (∃ w, l = .unlock w))
+    (h : step2? g cfg s l = some s') :
     FInv g s' ∧ (abs s' = abs s ∨ ∃ l1, step? g cfg (abs s) l1 = some (abs s')) := by
-  cases l with
-  | acquire w y =>
+  obtain ⟨hfR, hfF⟩ := hf
+  rcases hl with ⟨w, y, rfl⟩ | ⟨w, rfl⟩ | ⟨w, rfl⟩ | ⟨w, rfl⟩ | ⟨w, rfl⟩
+  · -- acquire
     simp only [step2?] at h
     split at h
-    · next x todo hl hw =>
+    · next x todo hlk hw =>
       split at h
       · next hc =>
         cases h
-        refine ⟨?_, Or.inl ?_⟩
-        · simp only [FInv]
-          exact ⟨hc.1, by simpa using hc.2, by simpa using hw, fun b hb => by cases hb⟩
-        · simp [abs, hl]
+        refine ⟨⟨?_, hfF⟩, Or.inl ?_⟩
+        · exact ⟨hc.1, by simpa using hc.2, by simpa using hw, fun b hb => by cases hb⟩
+        · simp [abs, absR, hlk]
       · cases h
     · cases h
-  | dec w =>
+  · -- dec
     simp only [step2?] at h
     split at h
-    · next r hl =>
+    · next r hlk =>
       split at h
       · next hc =>
         cases h
         obtain ⟨rfl, hst⟩ := hc
-        simp only [FInv, hl] at hf
-        obtain ⟨hy, hns, hws, _⟩ := hf
+        simp only [hlk] at hfR
+        obtain ⟨hy, hns, hws, _⟩ := hfR
         simp only [hst] at hws
-        have habs : abs s = s.c := by simp [abs, hl, hst]
+        have hws' : s.c.ws[r.w]? = some (W.releasing r.x r.todo) := by simpa using hws
         have hi := inv_reach hg hr
-        rw [habs] at hi
-        have h2 : 2 ≤ g.predCount r.y := by
-          have hmem : W.releasing r.x r.todo ∈ s.c.ws := List.mem_of_getElem? (by simpa using hws)
-          obtain ⟨_, _, htodo, _⟩ := hi.relsing r.x r.todo hmem
-          have hxp : r.x ∈ g.preds r.y := (hg.adj r.x r.y).mp (htodo r.y hy).1
-          have h1 : 1 ≤ g.predCount r.y := by unfold Graph.predCount; exact List.length_pos_of_mem hxp
-          have h3 : g.predCount r.y ≠ 1 := fun hh => hns ((classify_single_iff _).mpr hh)
-          omega
-        have hpos := rem_pos hg hi (by simpa using hws) hy h2
-        refine ⟨?_, Or.inl ?_⟩
-        · simp only [FInv]
-          exact ⟨hy, hns, by simpa using hws, fun b hb => by cases hb⟩
-        · rw [habs]
-          simp only [abs]
+        obtain ⟨_, _, _, haws, _, _, _, _, _, _, harel, _, _⟩ := abs_fields s
+        have harem : (abs s).rem = s.c.rem := by
+          unfold abs
+          rw [(absF_fields s.flock _).2.2.2.1]
+          simp [absR, hlk, hst]
+        have hmem : W.releasing r.x r.todo ∈ (abs s).ws := by rw [haws]; exact List.mem_of_getElem? hws'
+        obtain ⟨_, _, htodo, _⟩ := hi.relsing r.x r.todo hmem
+        have hxp : r.x ∈ g.preds r.y := (hg.adj r.x r.y).mp (htodo r.y hy).1
+        have h1 : 1 ≤ g.predCount r.y := by unfold Graph.predCount; exact List.length_pos_of_mem hxp
+        have h3 : g.predCount r.y ≠ 1 := fun hh => hns ((classify_single_iff _).mpr hh)
+        have hpos : 1 ≤ s.c.rem r.y := by
+          have := rem_pos hg hi (w := r.w) (by rw [haws]; exact hws') hy (by omega)
+          rwa [harem] at this
+        refine ⟨⟨?_, ?_⟩, Or.inl ?_⟩
+        · exact ⟨hy, hns, by simpa using hws, fun b hb => by cases hb⟩
+        · exact hfF
+        · simp only [abs, absR, hlk, hst]
           rw [bump_dec hpos]
       · cases h
     · cases h
-  | test w =>
+  · -- test
     simp only [step2?] at h
     split at h
-    · next r hl =>
+    · next r hlk =>
       split at h
       · next hc =>
         cases h
         obtain ⟨rfl, hst⟩ := hc
-        simp only [FInv, hl] at hf
-        obtain ⟨hy, hns, hws, _⟩ := hf
+        simp only [hlk] at hfR
+        obtain ⟨hy, hns, hws, _⟩ := hfR
         simp only [hst] at hws
-        refine ⟨?_, Or.inl ?_⟩
-        · simp only [FInv]
-          exact ⟨hy, hns, by simpa using hws, fun b hb => by cases hb; rfl⟩
-        · simp [abs, hl, hst]
+        refine ⟨⟨?_, hfF⟩, Or.inl ?_⟩
+        · exact ⟨hy, hns, by simpa using hws, fun b hb => by cases hb; rfl⟩
+        · simp [abs, absR, hlk, hst]
       · cases h
     · cases h
-  | put w =>
+  · -- put: the block takes effect
     simp only [step2?] at h
     split at h
-    · next r hl =>
+    · next r hlk =>
       split at h
       · next b hst =>
         split at h
         · next hw =>
           cases h
           subst hw
-          simp only [FInv, hl] at hf
-          obtain ⟨hy, hns, hws, hb⟩ := hf
+          simp only [hlk] at hfR
+          obtain ⟨hy, hns, hws, hb⟩ := hfR
           simp only [hst] at hws
           have hb' := hb b hst
           have hws' : s.c.ws[r.w]? = some (W.releasing r.x r.todo) := by simpa using hws
-          refine ⟨?_, Or.inr ⟨.release r.w r.y, ?_⟩⟩
-          · simp only [FInv]
-            refine ⟨hy, hns, ?_, fun b' hb'' => by cases hb''⟩
+          have hlt := (List.getElem?_eq_some_iff.mp hws').1
+          refine ⟨⟨?_, ?_⟩, Or.inr ⟨.release r.w r.y, ?_⟩⟩
+          · refine ⟨hy, hns, ?_, fun b' hb'' => by cases hb''⟩
             simp only [setW, if_true]
-            have hlt := (List.getElem?_eq_some_iff.mp hws').1
             simp [List.getElem?_set, hlt]
-          · have habs : abs s = { s.c with rem := bump s.c.rem r.y } := by simp [abs, hl, hst]
-            rw [habs]
-            simp only [step?, hws', hy, if_true, abs, releasePut, releaseRem, hns, setW]
-            have hrem : (fun z => if z = r.y then bump s.c.rem r.y r.y - 1 else bump s.c.rem r.y z) = s.c.rem := by
-              funext z
-              unfold bump
-              by_cases hz : z = r.y
-              · subst hz; simp
-              · simp [hz]
-            have hready : readyCond (if r.y = r.y then bump s.c.rem r.y r.y - 1 else bump s.c.rem r.y r.y) = b := by
-              simp [bump, hb']
-            have hr2 : readyCond (bump s.c.rem r.y r.y - 1) = b := by simp [bump, hb']
-            simp [hrem, hr2, hns]
+          · -- the holder of the other lock is another worker
+            cases hfl : s.flock with
+            | none => simp
+            | some fr =>
+              simp only [hfl] at hfF ⊢
+              obtain ⟨hfw, h1, h2, h3⟩ := hfF
+              have hne : r.w ≠ fr.w := ws_ne hws' hfw (by split <;> simp)
+              exact ⟨by simp only [setW]; rw [List.getElem?_set_ne hne]; exact hfw, h1, h2, h3⟩
+          · unfold abs
+            rw [step_absF (by simp [NoFail])]
+            have hcore : step? g cfg (absR s.lock s.c) (.release r.w r.y) = some
+                { setW s.c r.w (.releasing r.x (r.todo.erase r.y)) with
+                    rel := s.c.rel ++ [(r.x, r.y)]
+                    queue := if b then s.c.queue ++ [.node r.y] else s.c.queue
+                    unfinished := if b then s.c.unfinished + 1 else s.c.unfinished
+                    enq := if b then s.c.enq ++ [r.y] else s.c.enq } := by
+              simp only [absR, hlk, hst, step?, hws', hy, if_true, releasePut, releaseRem, hns, setW]
+              have hrem : (fun z => if z = r.y then bump s.c.rem r.y r.y - 1 else bump s.c.rem r.y z) = s.c.rem := by
+                funext z
+                unfold bump
+                by_cases hz : z = r.y
+                · subst hz; simp
+                · simp [hz]
+              have hr2 : readyCond (bump s.c.rem r.y r.y - 1) = b := by simp [bump, hb']
+              simp [hrem, hr2, hns]
+            rw [hcore]
+            simp [absR]
         · cases h
       all_goals cases h
     · cases h
-  | unlock w =>
+  · -- unlock
     simp only [step2?] at h
     split at h
-    · next r hl =>
+    · next r hlk =>
       split at h
       · next hc =>
         cases h
-        exact ⟨by simp [FInv], Or.inl (by simp [abs, hl, hc.2])⟩
+        exact ⟨⟨by simp, hfF⟩, Or.inl (by simp [abs, absR, hlk, hc.2])⟩
       · cases h
     · cases h
-  | base l =>
+
+/-- the steps of the `failure_lock` block -/
+theorem sim_failure {l : Label2} (hf : FInv g s)
+    (hl : (∃ w, l = .facquire w) ∨ (∃ w, l = .fcount w) ∨ (∃ w, l = .ffirst w) ∨ (∃ w, l = .fstop w) ∨ (∃ w, l = .funlock w))
+    (h : step2? g cfg s l = some s') :
+    FInv g s' ∧ (abs s' = abs s ∨ ∃ l1, step? g cfg (abs s) l1 = some (abs s')) := by
+  obtain ⟨hfR, hfF⟩ := hf
+  rcases hl with ⟨w, rfl⟩ | ⟨w, rfl⟩ | ⟨w, rfl⟩ | ⟨w, rfl⟩ | ⟨w, rfl⟩
+  · -- facquire
     simp only [step2?] at h
-    by_cases hguard : blocked s l = true
-    · simp [hguard] at h
-    · simp only [hguard, Bool.false_eq_true, if_false] at h
-      -- the coarse step on the actual state, a plain label
-      have key : ∃ c', step? g cfg s.c l = some c' ∧ s' = { s with c := c' } ∧ Plain g l := by
-        cases l
-        case release w y =>
-          simp only at h
-          split at h
-          · next hsingle =>
-            cases hc : step? g cfg s.c (.release w y) with
-            | none => rw [hc] at h; cases h
-            | some c' => rw [hc] at h; cases h; exact ⟨c', rfl, rfl, by simpa [Plain] using hsingle⟩
-          · cases h
-        all_goals
-          simp only at h
-          cases hc : step? g cfg s.c _ with
+    split at h
+    · next x hfl hw =>
+      cases h
+      refine ⟨⟨hfR, ?_⟩, Or.inl ?_⟩
+      · exact ⟨by simpa using hw, fun _ => rfl, (fun hh => by cases hh), (fun hh => by cases hh)⟩
+      · simp [abs, absF, hfl]
+    · cases h
+  · -- fcount
+    simp only [step2?] at h
+    split at h
+    · next r hfl =>
+      split at h
+      · next hc =>
+        cases h
+        obtain ⟨rfl, hst⟩ := hc
+        simp only [hfl] at hfF
+        obtain ⟨hfw, h1, _, _⟩ := hfF
+        simp only [hst] at hfw
+        refine ⟨⟨hfR, ?_⟩, Or.inl ?_⟩
+        · exact ⟨by simpa using hfw, (fun hh => by cases hh), fun _ => ⟨h1 hst, by simp⟩, (fun hh => by cases hh)⟩
+        · simp only [abs, absF, hfl, hst]
+          rw [absR_with_errs]
+          have := (absR_fields s.lock s.c).2.2.2.1
+          simp only [this, Nat.add_sub_cancel]
+          exact with_errs_self _ _ this
+      · cases h
+    · cases h
+  · -- ffirst
+    simp only [step2?] at h
+    split at h
+    · next r hfl =>
+      split at h
+      · next hc =>
+        cases h
+        obtain ⟨rfl, hst⟩ := hc
+        simp only [hfl] at hfF
+        obtain ⟨hfw, _, h2, _⟩ := hfF
+        simp only [hst] at hfw
+        obtain ⟨hfirst, hpos⟩ := h2 hst
+        refine ⟨⟨hfR, ?_⟩, Or.inl ?_⟩
+        · exact ⟨by simpa using hfw, (fun hh => by cases hh), (fun hh => by cases hh),
+            fun _ => ⟨by show (match s.c.first with | some f => some f | none => some r.x) = _; rw [hfirst], hpos⟩⟩
+        · simp only [abs, absF, hfl, hst]
+          rw [absR_with_first]
+          have := (absR_fields s.lock s.c).2.2.2.2.1
+          simp [this, hfirst]
+      · cases h
+    · cases h
+  · -- fstop: the block takes effect
+    simp only [step2?] at h
+    split at h
+    · next r hfl =>
+      split at h
+      · next hc =>
+        cases h
+        obtain ⟨rfl, hst⟩ := hc
+        simp only [hfl] at hfF
+        obtain ⟨hfw, _, _, h3⟩ := hfF
+        simp only [hst] at hfw
+        obtain ⟨hfirst, hpos⟩ := h3 hst
+        have hfw' : s.c.ws[r.w]? = some (W.running r.x) := by simpa using hfw
+        have hlt := (List.getElem?_eq_some_iff.mp hfw').1
+        refine ⟨⟨?_, ?_⟩, Or.inr ⟨.finFail r.w, ?_⟩⟩
+        · cases hlk : s.lock with
+          | none => simp
+          | some q =>
+            simp only [hlk] at hfR ⊢
+            obtain ⟨a1, a2, a3, a4⟩ := hfR
+            have hne : r.w ≠ q.w := ws_ne hfw' a3 (by split <;> simp)
+            exact ⟨a1, a2, by simp only [setW]; rw [List.getElem?_set_ne hne]; exact a3, a4⟩
+        · refine ⟨?_, (fun hh => by cases hh), (fun hh => by cases hh), (fun hh => by cases hh)⟩
+          simp only [setW, if_true]
+          simp [List.getElem?_set, hlt]
+        · unfold abs
+          rw [absF_absR_comm, step_absR (by simp [Plain])]
+          have hcore : step? g cfg (absF s.flock s.c) (.finFail r.w) = some
+              { setW s.c r.w (.finishing false) with
+                  stop := s.c.stop || stopCond s.c.errs cfg.maxErr
+                  failed := s.c.failed ++ [r.x], retired := s.c.retired ++ [r.x]
+                  log := s.c.log ++ [.fail r.x] } := by
+            simp only [absF, hfl, hst, step?, hfw', setW]
+            have he : s.c.errs - 1 + 1 = s.c.errs := by omega
+            simp [he, hfirst]
+            cases r.oldFirst <;> rfl
+          rw [hcore]
+          simp [absF]
+      · cases h
+    · cases h
+  · -- funlock
+    simp only [step2?] at h
+    split at h
+    · next r hfl =>
+      split at h
+      · next hc =>
+        cases h
+        exact ⟨⟨hfR, by simp⟩, Or.inl (by simp [abs, absF, hfl, hc.2])⟩
+      · cases h
+    · cases h
+
+/-- a step of a thread that is in neither block -/
+theorem sim_base {l : Label} (hf : FInv g s) (h : step2? g cfg s (.base l) = some s') :
+    FInv g s' ∧ step? g cfg (abs s) l = some (abs s') := by
+  obtain ⟨hfR, hfF⟩ := hf
+  simp only [step2?] at h
+  by_cases hguard : blocked s l = true
+  · simp [hguard] at h
+  · simp only [hguard, Bool.false_eq_true, if_false] at h
+    have key : ∃ c', step? g cfg s.c l = some c' ∧ s' = { s with c := c' } ∧ Plain g l ∧ NoFail l := by
+      cases l
+      case release w y =>
+        simp only at h
+        split at h
+        · next hsingle =>
+          cases hc : step? g cfg s.c (.release w y) with
           | none => rw [hc] at h; cases h
-          | some c' => rw [hc] at h; cases h; exact ⟨c', rfl, rfl, trivial⟩
-      obtain ⟨c', hc, rfl, hplain⟩ := key
-      have hrem := (step_rem_frame (g := g) (cfg := cfg) (c := s.c) hplain (fun z => z)).2 c' hc
-      refine ⟨?_, Or.inr ⟨l, ?_⟩⟩
-      · -- FInv: the holder's control state and the counter are untouched
-        cases hl : s.lock with
-        | none => simp [FInv, hl]
-        | some r =>
-          simp only [FInv, hl] at hf ⊢
-          obtain ⟨hy, hns, hws, hb⟩ := hf
-          have hne : labelWorker l ≠ some r.w := by
-            intro hh
-            apply hguard
-            simp [blocked, hh, holds, hl]
-          exact ⟨hy, hns, step_ws_frame hc hne hws, fun b hb' => by rw [hrem]; exact hb b hb'⟩
-      · -- abs commutes with the step
-        cases hl : s.lock with
-        | none => simp [abs, hl, hc]
-        | some r =>
-          cases hst : r.stage with
-          | acquired => simp [abs, hl, hst, hc]
-          | done => simp [abs, hl, hst, hc]
-          | decremented =>
-            simp only [abs, hl, hst]
-            rw [(step_rem_frame hplain (bump s.c.rem r.y)).1, hc, hrem]; rfl
-          | tested b =>
-            simp only [abs, hl, hst]
-            rw [(step_rem_frame hplain (bump s.c.rem r.y)).1, hc, hrem]; rfl
+          | some c' => rw [hc] at h; cases h; exact ⟨c', rfl, rfl, by simpa [Plain] using hsingle, trivial⟩
+        · cases h
+      case finFail w => simp only at h; cases h
+      all_goals
+        simp only at h
+        cases hc : step? g cfg s.c _ with
+        | none => rw [hc] at h; cases h
+        | some c' => rw [hc] at h; cases h; exact ⟨c', rfl, rfl, trivial, trivial⟩
+    obtain ⟨c', hc, rfl, hplain, hnofail⟩ := key
+    have hrem := (step_rem_frame (g := g) (cfg := cfg) (c := s.c) hplain (fun z => z)).2 c' hc
+    have herr := (step_err_frame (g := g) (cfg := cfg) (c := s.c) hnofail 0 none).2 c' hc
+    refine ⟨⟨?_, ?_⟩, ?_⟩
+    · cases hlk : s.lock with
+      | none => simp
+      | some r =>
+        simp only [hlk] at hfR ⊢
+        obtain ⟨hy, hns, hws, hb⟩ := hfR
+        have hne : labelWorker l ≠ some r.w := by
+          intro hh
+          apply hguard
+          simp [blocked, hh, holds, hlk]
+        exact ⟨hy, hns, step_ws_frame hc hne hws, fun b hb' => by rw [hrem]; exact hb b hb'⟩
+    · cases hfl : s.flock with
+      | none => simp
+      | some r =>
+        simp only [hfl] at hfF ⊢
+        obtain ⟨hfw, h1, h2, h3⟩ := hfF
+        have hne : labelWorker l ≠ some r.w := by
+          intro hh
+          apply hguard
+          simp [blocked, hh, holds, hfl]
+        refine ⟨step_ws_frame hc hne hfw, ?_, ?_, ?_⟩
+        · intro hh; rw [herr.2]; exact h1 hh
+        · intro hh; rw [herr.1, herr.2]; exact h2 hh
+        · intro hh; rw [herr.1, herr.2]; exact h3 hh
+    · unfold abs
+      rw [step_absF hnofail, step_absR hplain, hc]
+      rfl
+
+/-- **One fine step is one coarse step or none** (and `FInv` is kept). -/
+theorem sim (hg : g.WF) {l : Label2} (hr : Reach g cfg (abs s)) (hf : FInv g s) (h : step2? g cfg s l = some s') :
+    FInv g s' ∧ (abs s' = abs s ∨ ∃ l1, step? g cfg (abs s) l1 = some (abs s')) := by
+  cases l with
+  | base l => obtain ⟨a, b⟩ := sim_base hf h; exact ⟨a, Or.inr ⟨l, b⟩⟩
+  | acquire w y => exact sim_counter hg hr hf (Or.inl ⟨w, y, rfl⟩) h
+  | dec w => exact sim_counter hg hr hf (Or.inr (Or.inl ⟨w, rfl⟩)) h
+  | test w => exact sim_counter hg hr hf (Or.inr (Or.inr (Or.inl ⟨w, rfl⟩))) h
+  | put w => exact sim_counter hg hr hf (Or.inr (Or.inr (Or.inr (Or.inl ⟨w, rfl⟩)))) h
+  | unlock w => exact sim_counter hg hr hf (Or.inr (Or.inr (Or.inr (Or.inr ⟨w, rfl⟩)))) h
+  | facquire w => exact sim_failure hf (Or.inl ⟨w, rfl⟩) h
+  | fcount w => exact sim_failure hf (Or.inr (Or.inl ⟨w, rfl⟩)) h
+  | ffirst w => exact sim_failure hf (Or.inr (Or.inr (Or.inl ⟨w, rfl⟩))) h
+  | fstop w => exact sim_failure hf (Or.inr (Or.inr (Or.inr (Or.inl ⟨w, rfl⟩)))) h
+  | funlock w => exact sim_failure hf (Or.inr (Or.inr (Or.inr (Or.inr ⟨w, rfl⟩)))) h
+
+end
 
 /-- **Refinement**: every reachable state of the fine model stands for a reachable state of the coarse model. -/
 theorem refine_reach {g : Graph} (hg : g.WF) {cfg : Cfg} {s : St2} (h : Reach2 g cfg s) :
     Reach g cfg (abs s) ∧ FInv g s := by
   induction h with
-  | init => exact ⟨by simpa [abs, init2] using Reach.init, by simp [FInv, init2]⟩
+  | init => exact ⟨by simpa [abs, absF, absR, init2] using Reach.init, by simp [FInv, init2]⟩
   | step l _ hs ih =>
     obtain ⟨hf, hstep⟩ := sim hg ih.1 ih.2 hs
     refine ⟨?_, hf⟩
@@ -288,19 +564,23 @@ theorem refine_reach {g : Graph} (hg : g.WF) {cfg : Cfg} {s : St2} (h : Reach2 g
 /-- The locked decrement never underflows: whenever the lock holder is about to decrement, the counter is positive. -/
 theorem dec_positive {g : Graph} (hg : g.WF) {cfg : Cfg} {s : St2} (h : Reach2 g cfg s) {r : Region}
     (hl : s.lock = some r) (hst : r.stage = .acquired) : 1 ≤ s.c.rem r.y := by
-  obtain ⟨hr, hf⟩ := refine_reach hg h
-  simp only [FInv, hl] at hf
-  obtain ⟨hy, hns, hws, _⟩ := hf
+  obtain ⟨hr, hfR, _⟩ := refine_reach hg h
+  simp only [hl] at hfR
+  obtain ⟨hy, hns, hws, _⟩ := hfR
   simp only [hst] at hws
-  have habs : abs s = s.c := by simp [abs, hl, hst]
-  have hi := inv_reach hg hr
-  rw [habs] at hi
   have hws' : s.c.ws[r.w]? = some (W.releasing r.x r.todo) := by simpa using hws
-  have hmem : W.releasing r.x r.todo ∈ s.c.ws := List.mem_of_getElem? hws'
+  have hi := inv_reach hg hr
+  obtain ⟨_, _, _, haws, _⟩ := abs_fields s
+  have harem : (abs s).rem = s.c.rem := by
+    unfold abs
+    rw [(absF_fields s.flock _).2.2.2.1]
+    simp [absR, hl, hst]
+  have hmem : W.releasing r.x r.todo ∈ (abs s).ws := by rw [haws]; exact List.mem_of_getElem? hws'
   obtain ⟨_, _, htodo, _⟩ := hi.relsing r.x r.todo hmem
   have hxp : r.x ∈ g.preds r.y := (hg.adj r.x r.y).mp (htodo r.y hy).1
   have h1 : 1 ≤ g.predCount r.y := by unfold Graph.predCount; exact List.length_pos_of_mem hxp
   have h3 : g.predCount r.y ≠ 1 := fun hh => hns ((classify_single_iff _).mpr hh)
-  exact rem_pos hg hi hws' hy (by omega)
+  have := rem_pos hg hi (w := r.w) (by rw [haws]; exact hws') hy (by omega)
+  rwa [harem] at this
 
 end Uberjob.EngineFine
